@@ -71,6 +71,25 @@ def validate(chk, records):
     return fails
 
 
+# closure constructs that reach a steady state on the pinned tree (none of them lets a closure escape): boundedness is
+# asked of them on both runtimes
+STEADY_CONSTRUCTS = {
+    "unit_fn_applied_lambda": "let acc = 0.0\nfn bump(k){\n  acc = (| a | { a + k })(acc)\n}\nfn dsp(){\n  bump(1.0)\n  acc\n}\n",
+    "unit_fn_local_letrec": "let acc = 0.0\nfn bump(k){\n  letrec go = | n | { if (n > 0.0) { k + go(n - 1.0) } else { 0.0 } }\n"
+                            "  acc = acc + go(2.0)\n}\nfn dsp(){\n  bump(1.0)\n  acc\n}\n",
+    "float_fn_applied_lambda": "fn bump(k, acc){\n  (| a | { a + k })(acc)\n}\nfn dsp(){\n  bump(1.0, now)\n}\n",
+    "dsp_local_letrec": "fn dsp(){\n  let n = 2.0\n  letrec go = | i | { if (i > 0.0) { n + go(i - 1.0) } else { 0.0 } }\n  go(2.0)\n}\n",
+    "pipe_into_lambda": "fn dsp(){\n  let k = now\n  k |> (| a | { a * 2.0 + k })\n}\n",
+    "nested_applied_lambdas": "fn dsp(){\n  let k = now\n  (| a | { (| b | { a + b + k })(2.0) })(1.0)\n}\n",
+    "unit_fn_nested_unit_fn": "let acc = 0.0\nfn inner(k){\n  acc = (| a | { a + k })(acc)\n}\nfn outer(k){\n  inner(k)\n  inner(k)\n}\n"
+                              "fn dsp(){\n  outer(1.0)\n  acc\n}\n",
+    "global_closure": "fn mk(k){ | y | { y + k } }\nlet g = mk(3.0)\nfn dsp(){\n  g(now)\n}\n",
+    "task_applied_lambda": "fn makecounter(){\n    let x = 0.0\n    letrec gen = | |{\n        let step = 1.0\n        x = (| a | { a + step })(x)\n"
+                           "        gen@(now+1.0)\n    }\n    gen@1.0\n    let getter = | | {x}\n    getter\n}\nlet x_getter = makecounter();\n"
+                           "fn dsp(){\n    x_getter()\n}\n",
+    "if_arm_applied_lambda": "fn dsp(){\n  let k = now\n  if (k % 2.0) { (| a | { a + k })(1.0) } else { (| a | { a - k })(2.0) }\n}\n",
+    "tuple_from_applied_lambda": "fn dsp(){\n  let k = now\n  let (p, q) = (| a | { (a, a + k) })(1.0)\n  p + q\n}\n",
+}
 CLOSURE_TOKENS = ("|", "mk(", "apply(")
 
 
@@ -95,6 +114,8 @@ def run(tier):
     for f in sorted(glob.glob(os.path.join(vlib.REPO, "examples", "*.mmm"))
                     + glob.glob(os.path.join(vlib.REPO, "crates/lib/mimium-test/tests/mmm", "*.mmm"))):
         corpus.append((os.path.basename(f), open(f).read(), f, False))
+    for name, src in STEADY_CONSTRUCTS.items():
+        corpus.append((f"steady:{name}", src, None, False))
     pins = {}
     d = os.path.join(vlib.VERIF, "findings", "C12")
     if os.path.isdir(d):
